@@ -228,7 +228,8 @@ func (r *Reader) eachByte(b byte) {
 				}
 			*/
 			r.state = readerStateClean
-			if r.HandleSysex {
+			// sysex messages larger than the buffer are ignored
+			if r.HandleSysex && r.sysexlen < len(r.sysexBf) {
 				r.sysexBf[r.sysexlen] = b
 				r.sysexlen++
 				//go
@@ -255,7 +256,10 @@ func (r *Reader) eachByte(b byte) {
 		}
 
 		if r.HandleSysex {
-			r.sysexBf[r.sysexlen] = b
+			// keep counting beyond the buffer, so that the oversized message can be dropped at its end
+			if r.sysexlen < len(r.sysexBf) {
+				r.sysexBf[r.sysexlen] = b
+			}
 			r.sysexlen++
 		}
 
